@@ -1,15 +1,363 @@
 package ppool
 
 import (
+	"fmt"
+	"os"
+	"sync"
+	"time"
+
+	"github.com/ontio/ontology-crypto/keypair"
+	"github.com/ontio/ontology-eventbus/actor"
+	"github.com/polynetwork/poly/account"
+	"github.com/polynetwork/poly/common"
+	"github.com/polynetwork/poly/core/ledger"
+	"github.com/polynetwork/poly/core/payload"
+	"github.com/polynetwork/poly/core/types"
+	perr "github.com/polynetwork/poly/errors"
+	tc "github.com/polynetwork/poly/txnpool/common"
+	"github.com/polynetwork/poly/txnpool/proc"
+	vt "github.com/polynetwork/poly/validator/types"
 	"pgregory.net/rapid"
 
 	"verif/harness/ev"
+	"verif/harness/lworld"
+	"verif/harness/world"
 )
 
-type c37Cap struct{}
+// ---------------------------------------------------------------------------------------------
+// C37, capacity part: the real TXPoolServer with its tx actor, verify-response actor and workers,
+// over a real ledger (lworld genesis: validators Acct(0..3) are the permitted senders), the pool
+// pre-filled (through the build-tagged accessor VerifTxPool) to MAX_CAPACITY-Below, validators
+// replaced by harness actors that approve everything but answer only when the harness opens a
+// gate. Transactions are submitted through the tx actor like the HTTP interface does.
+//
+// judged:  (a) a submission that finds the pool at (or above) MAX_CAPACITY is answered
+//              ErrTxPoolFull and changes neither the pool nor the pending list;
+//          (b) an outsider's / a duplicate submission changes nothing;
+//          (c) after everything pending was verified the pool holds at most MAX_CAPACITY entries.
 
-const c37CapEnabled = false
+const c37CapEnabled = true
 
-func genC37Cap(t *rapid.T) c37Case { return c37Case{Mode: "cap"} }
+type c37Cap struct {
+	Below int      `json:"below"` // pool pre-filled to MAX_CAPACITY - Below
+	Subs  []string `json:"subs"`  // new | duppool | duppending | outsider
+}
 
-func runC37Cap(ctx *ev.Ctx, c c37Case) {}
+func genC37Cap(t *rapid.T) c37Case {
+	c := c37Case{Mode: "cap"}
+	cp := &c37Cap{Below: fairInt(t, 4, "below")}
+	cp.Subs = rapid.SliceOfN(rapid.SampledFrom([]string{"new", "new", "new", "new", "duppool", "duppending", "outsider"}), 1, 6).Draw(t, "subs")
+	c.Cap = cp
+	return c
+}
+
+func capTx(nonce uint32, signer *account.Account) *types.Transaction {
+	tx := &types.Transaction{Version: types.CURR_TX_VERSION, TxType: types.Invoke, Nonce: nonce,
+		Payload: &payload.InvokeCode{Code: []byte{0xca, byte(nonce)}}}
+	// the pool's admission only derives addresses from the listed keys; signatures are the
+	// (here: replaced) validators' business
+	tx.Sigs = []types.Sig{{SigData: [][]byte{make([]byte, 65)}, PubKeys: []keypair.PublicKey{signer.PublicKey}, M: 1}}
+	sink := common.NewZeroCopySink(nil)
+	if err := tx.Serialization(sink); err != nil {
+		panic(err)
+	}
+	t2, err := types.TransactionFromRawBytes(sink.Bytes())
+	if err != nil {
+		panic(err)
+	}
+	return t2
+}
+
+// capFixture: ledger + server + actors + gated validators + pre-filled pool are expensive (100k
+// entries), so one fixture per process serves all capacity cases; every case starts by setting the
+// pool content exactly (previous submissions removed, fillers added/removed to reach the wanted
+// size, counts verified). A failed case discards the fixture.
+type capFixture struct {
+	dir    string
+	ch     *lworld.Chain
+	old    *ledger.Ledger
+	s      *proc.TXPoolServer
+	txPid  *actor.PID
+	rspPid *actor.PID
+	v1, v2 *actor.PID
+	pool   *tc.TXPool
+	mu     sync.Mutex
+	gate   chan struct{}
+	inPool *types.Transaction
+	nFill  int                  // fillers currently in the pool
+	extra  []*types.Transaction // transactions earlier cases got into the pool
+	dirty  bool
+}
+
+var capFx *capFixture
+
+var capNonce = uint32(900000)
+
+func (fx *capFixture) curGate() chan struct{} { fx.mu.Lock(); defer fx.mu.Unlock(); return fx.gate }
+
+func (fx *capFixture) close() {
+	if fx.gate != nil {
+		select {
+		case <-fx.gate:
+		default:
+			close(fx.gate)
+		}
+	}
+	fx.v1.Stop()
+	fx.v2.Stop()
+	fx.s.Stop()
+	ledger.DefLedger = fx.old
+	fx.ch.Close()
+	os.RemoveAll(fx.dir)
+}
+
+func c37CapCleanup() {
+	if capFx != nil {
+		capFx.close()
+		capFx = nil
+	}
+}
+
+func newCapFixture(ctx *ev.Ctx) *capFixture {
+	const netID = 2
+	fx := &capFixture{dir: lworld.TempDir("c37cap")}
+	ch, err := lworld.Open(fx.dir, 4, netID)
+	if err != nil {
+		os.RemoveAll(fx.dir)
+		ctx.Failf("harness: open ledger: %v", err)
+	}
+	fx.ch = ch
+	fx.old = ledger.DefLedger
+	ledger.DefLedger = ch.Ledger
+	s := proc.NewTxPoolServer(tc.MAX_WORKER_NUM, true, true)
+	fx.s = s
+	fx.rspPid = actor.Spawn(actor.FromProducer(func() actor.Actor { return proc.NewVerifyRspActor(s) }))
+	s.RegisterActor(tc.VerifyRspActor, fx.rspPid)
+	fx.txPid = actor.Spawn(actor.FromProducer(func() actor.Actor { return proc.NewTxActor(s) }))
+	s.RegisterActor(tc.TxActor, fx.txPid)
+	fx.gate = make(chan struct{})
+	mkValidator := func(t vt.VerifyType) *actor.PID {
+		return actor.Spawn(actor.FromFunc(func(c actor.Context) {
+			if m, ok := c.Message().(*vt.CheckTx); ok {
+				<-fx.curGate()
+				c.Sender().Tell(&vt.CheckResponse{WorkerId: m.WorkerId, Type: t, Hash: m.Tx.Hash(), Height: 0, ErrCode: perr.ErrNoError})
+			}
+		}))
+	}
+	fx.v1, fx.v2 = mkValidator(vt.Stateless), mkValidator(vt.Stateful)
+	fx.rspPid.Tell(&vt.RegisterValidator{Sender: fx.v1, Type: vt.Stateless, Id: "verif-sl"})
+	fx.rspPid.Tell(&vt.RegisterValidator{Sender: fx.v2, Type: vt.Stateful, Id: "verif-sf"})
+	for i := 0; s.VerifValidatorCount() < 2; i++ {
+		if i > 20000 {
+			fx.close()
+			ctx.Failf("harness: validators did not register")
+		}
+		time.Sleep(time.Millisecond)
+	}
+	fx.pool = s.VerifTxPool()
+	fx.inPool = capTx(899999, world.Acct(1))
+	if !fx.pool.AddTxList(capEntry(fx.inPool)) {
+		ctx.Failf("harness: pre-fill rejected")
+	}
+	return fx
+}
+
+func capEntry(t *types.Transaction) *tc.TXEntry {
+	return &tc.TXEntry{Tx: t, Attrs: []*tc.TXAttr{{Type: vt.Stateless}, {Type: vt.Stateful}}}
+}
+
+// setPool makes the pool hold exactly inPool + (want-1) fillers.
+func (fx *capFixture) setPool(ctx *ev.Ctx, want int) {
+	for _, t := range fx.extra {
+		fx.pool.DelTxList(t)
+	}
+	fx.extra = nil
+	fill := fillerTxs(tc.MAX_CAPACITY)
+	for fx.nFill < want-1 {
+		if !fx.pool.AddTxList(capEntry(fill[fx.nFill])) {
+			ctx.Failf("harness: pre-fill rejected")
+		}
+		fx.nFill++
+	}
+	for fx.nFill > want-1 {
+		fx.nFill--
+		if !fx.pool.DelTxList(fill[fx.nFill]) {
+			ctx.Failf("harness: filler vanished")
+		}
+	}
+}
+
+func runC37Cap(ctx *ev.Ctx, c c37Case) {
+	if c.Cap == nil || c.Cap.Below < 0 || c.Cap.Below > 16 {
+		ctx.Failf("harness: malformed capacity case")
+	}
+	if capFx != nil && capFx.dirty {
+		c37CapCleanup()
+	}
+	if capFx == nil {
+		capFx = newCapFixture(ctx)
+	}
+	fx := capFx
+	fx.dirty = true // cleared at the regular end of the case
+	txPid, pool := fx.txPid, fx.pool
+	fx.mu.Lock()
+	fx.gate = make(chan struct{})
+	gate := fx.gate
+	fx.mu.Unlock()
+	released := false
+	defer func() {
+		if !released {
+			close(gate)
+		}
+	}()
+	want := tc.MAX_CAPACITY - c.Cap.Below
+	fx.setPool(ctx, want)
+	inPool := fx.inPool
+	counts := func() (int, int) {
+		r, err := txPid.RequestFuture(&tc.GetTxnCountReq{}, 60*time.Second).Result()
+		if err != nil {
+			ctx.Failf("tx actor did not answer a count request: %v", err)
+		}
+		rsp, ok := r.(*tc.GetTxnCountRsp)
+		if !ok || len(rsp.Count) != 2 {
+			ctx.Failf("tx actor answered %T to a count request", r)
+		}
+		return int(rsp.Count[0]), int(rsp.Count[1])
+	}
+	poolN, pendN := counts()
+	if poolN != want || pendN != 0 {
+		ctx.Failf("harness: after pre-fill pool=%d pending=%d, want %d/0", poolN, pendN, want)
+	}
+
+	type sub struct {
+		kind     string
+		ch       chan *tc.TxResult
+		admitted bool
+		tx       *types.Transaction
+	}
+	var subs []*sub
+	nonce := capNonce
+	defer func() { capNonce = nonce }()
+	var lastPending *types.Transaction
+	atCap, overAdmit := false, 0
+	for i, kind := range c.Cap.Subs {
+		var tx *types.Transaction
+		switch kind {
+		case "new":
+			nonce++
+			tx = capTx(nonce, world.Acct(i%4))
+		case "outsider":
+			nonce++
+			tx = capTx(nonce, world.Acct(40+i)) // not a consensus peer, not a relayer
+		case "duppool":
+			tx = inPool // from a permitted sender, already verified and in the pool
+		case "duppending":
+			if lastPending == nil {
+				nonce++
+				tx = capTx(nonce, world.Acct(0))
+				kind = "new"
+			} else {
+				tx = lastPending
+			}
+		default:
+			ctx.Failf("harness: unknown submission kind %q", kind)
+		}
+		sb := &sub{kind: kind, ch: make(chan *tc.TxResult, 1), tx: tx}
+		subs = append(subs, sb)
+		txPid.Tell(&tc.TxReq{Tx: tx, Sender: tc.HttpSender, TxResultCh: sb.ch})
+		p2, q2 := counts() // the actor handles its mailbox in order: the submission has been handled
+		var res *tc.TxResult
+		select {
+		case res = <-sb.ch:
+		default:
+		}
+		what := fmt.Sprintf("submission %d (%s) with pool=%d/%d pending=%d", i, kind, poolN, tc.MAX_CAPACITY, pendN)
+		grew := p2 != poolN || q2 != pendN
+		switch {
+		case kind == "outsider":
+			if grew || res == nil || res.Err == perr.ErrNoError {
+				ctx.Failf("%s: a sender that is neither relayer nor consensus peer must be refused without effect; pool=%d pending=%d result=%v", what, p2, q2, res)
+			}
+		case kind == "duppool":
+			if grew || res == nil || res.Err != perr.ErrDuplicateInput {
+				ctx.Failf("%s: a transaction already in the pool must be refused as duplicate without effect; pool=%d pending=%d result=%v", what, p2, q2, res)
+			}
+		case kind == "duppending":
+			if grew || res == nil || res.Err != perr.ErrDuplicateInput {
+				ctx.Failf("%s: a transaction already being verified must be refused as duplicate without effect; pool=%d pending=%d result=%v", what, p2, q2, res)
+			}
+		case poolN >= tc.MAX_CAPACITY:
+			atCap = true
+			if grew || res == nil || res.Err != perr.ErrTxPoolFull {
+				ctx.Failf("%s: the pool is full, the submission must be answered ErrTxPoolFull and change nothing; pool=%d pending=%d result=%v", what, p2, q2, res)
+			}
+		default:
+			// below capacity: not judged whether it is admitted; follow what happened
+			if p2 != poolN || (q2 != pendN && q2 != pendN+1) {
+				ctx.Failf("%s: unexpected bookkeeping, pool=%d pending=%d", what, p2, q2)
+			}
+			if q2 == pendN+1 {
+				sb.admitted = true
+				lastPending = tx
+				if res != nil {
+					ctx.Failf("%s: admitted for verification but already answered %v", what, res)
+				}
+				if poolN+q2 > tc.MAX_CAPACITY {
+					overAdmit++
+				}
+			}
+		}
+		poolN, pendN = p2, q2
+	}
+	// let the validators answer and wait for the pending list to drain
+	released = true
+	close(gate)
+	for i := 0; ; i++ {
+		poolN, pendN = counts()
+		if pendN == 0 {
+			poolN, pendN = counts() // pool count and pending size are not read atomically: read again now that nothing moves
+			break
+		}
+		if i > 30000 {
+			ctx.Failf("pending list did not drain: pool=%d pending=%d", poolN, pendN)
+		}
+		time.Sleep(time.Millisecond)
+	}
+	admitted := 0
+	for i, sb := range subs {
+		if !sb.admitted {
+			continue
+		}
+		admitted++
+		select {
+		case r := <-sb.ch:
+			if r.Err != perr.ErrNoError {
+				ctx.Failf("submission %d was verified by approving validators but answered %v", i, r)
+			}
+		case <-time.After(30 * time.Second):
+			ctx.Failf("submission %d was admitted and verified but its submitter never got a result", i)
+		}
+		if pool.GetTransaction(sb.tx.Hash()) == nil {
+			ctx.Failf("submission %d was verified but is not in the pool", i)
+		}
+		fx.extra = append(fx.extra, sb.tx)
+	}
+	if poolN != want+admitted {
+		ctx.Failf("pool holds %d after verification, pre-fill %d + %d admitted", poolN, want, admitted)
+	}
+	fx.dirty = false
+	ctx.Label(fmt.Sprintf("cap:below=%d", c.Cap.Below))
+	if atCap {
+		ctx.Label("cap:submission-at-capacity")
+	}
+	if atCap || overAdmit > 0 {
+		ctx.NonTrivial()
+	}
+	if poolN > tc.MAX_CAPACITY {
+		ctx.Label("cap:overshoot")
+		ctx.Known("capacity-check-ignores-pending",
+			"pool holds %d verified transactions, capacity is %d: %d submissions were admitted while the pool held %d because the admission check "+
+				"(txnpool_actor.go handleTransaction: getTransactionCount() >= MAX_CAPACITY) does not count transactions still being verified",
+			poolN, tc.MAX_CAPACITY, admitted, want)
+	}
+}
